@@ -616,7 +616,7 @@ def uses_empty(qual):
     return _USES_EMPTY[mod]
 
 
-def check_call(inp, parts=("repeat", "readonly", "poison")):
+def check_call(inp, parts=("repeat", "readonly", "recycle", "poison")):
     """The property on ONE input of ONE public function.  None | what failed.
     (The before/after snapshot is always taken; `parts` selects the additional observations.)"""
     qual = inp["fn"]
@@ -645,6 +645,24 @@ def check_call(inp, parts=("repeat", "readonly", "poison")):
             return "%s writes through a read-only input: %s" % (qual, r3[2])
         return "%s gives a different result on read-only copies of the same arguments (%s vs %s)" % (
             qual, _short(r1), _short(r3))
+    if "recycle" in parts:
+        # the SAME argument objects as an earlier call, updated in place in between (a caller who edits an annotation and
+        # scores it again): the result may depend on the values only, never on object identity (a memo keyed by id())
+        import relcheck as _R
+        rec = _R._Recycler()
+        mode = ("labels", "scale", "both")[int(inp.get("seed", 0)) % 3]
+        va, vk = copy.deepcopy(pristine)
+        wa = tuple(rec.put(("a", i), _R._variant(x, mode)) for i, x in enumerate(va))
+        wk = {k: rec.put(("k", k), _R._variant(x, mode)) for k, x in vk.items()}
+        run(f, wa, wk)
+        a5, k5 = copy.deepcopy(pristine)
+        ra = tuple(rec.put(("a", i), x) for i, x in enumerate(a5))
+        rk = {k: rec.put(("k", k), x) for k, x in k5.items()}
+        r5 = run(f, ra, rk)
+        if r5 != r1:
+            return ("%s depends on the history of its argument OBJECTS: called on the same arrays / lists as an earlier call "
+                    "(values updated in place in between, variant %r) it gives %s, on fresh objects with the same values %s"
+                    % (qual, mode, _short(r5), _short(r1)))
     if "poison" in parts and uses_empty(qual):
         outs = []
         for sentinel in (1.5e300, -7.25e-300):
